@@ -11,6 +11,8 @@ each statistic with its own impose_* setter.
 Round 3: the statistics the measures delegate to (expectation, _expected_moment,
 expected_variance, support, support_index) keep their explicit-sum references
 (shared with C18.f).
+Round 4: no mutable default argument of math.discrete / math.measures is kept or
+mutated; the helpers impose_measure applies keep their references.
 NOT decided: round-trip equality of values, Cartesian order of _pack, update
 on ragged input.
 """
